@@ -61,6 +61,28 @@ def behaviour_lockstep(rng, sc, sc2, n_ops=20):
     return None
 
 
+def disturb(rng):
+    """A failing export / import in the same process, as happens in a long-running tool: round trips that follow
+    must not be affected by it."""
+    import sismic.io
+    from sismic.model import BasicState, CompoundState, Statechart, Transition
+    k = rng.randrange(3)
+    try:
+        if k == 0:
+            sc = Statechart('unexportable')
+            sc.add_state(CompoundState('r', initial='a'), None)
+            sc.add_state(BasicState('a', on_entry=(lambda: None) if rng.random() < 0.5 else None), 'r')
+            sc.add_transition(Transition('a', None, event='e', guard=lambda: True))
+            sismic.io.export_to_yaml(sc)
+        elif k == 1:
+            sismic.io.import_from_yaml('statechart:\n  name: [unclosed\n  root state: {')
+        else:
+            sismic.io.import_from_yaml('statechart:\n  name: x\n  root state:\n    name: r\n    bogus: 1\n')
+    except Exception:  # noqa
+        pass
+    return k
+
+
 def main(tier, seed):
     t0 = time.time()
     v = Verdict(PROP)
@@ -109,6 +131,9 @@ def main(tier, seed):
                 n_viol += 1
 
     for i in range(n):
+        if i % 5 == 1:
+            stats['disturbances'] = stats.get('disturbances', 0) + 1
+            disturb(rng)
         if i % 3 == 2:
             sc = genchart.valid_chart(rng, genchart.Profile())
             stats['executable'] += 1
